@@ -23,6 +23,9 @@ pub fn check(case: &Case, rec: &mut Rec) -> Option<Failure> {
     if case.kind == "drop-then-construct" {
         return check_drop_construct(case);
     }
+    if case.kind == "same-thread-long-twins" {
+        return check_long_twins(case);
+    }
     let mark = case.ops.iter().position(|o| *o == Op::Mark).unwrap_or(case.ops.len());
     let hist = &case.ops[..mark];
     let cont: Vec<Op> = case.ops[(mark + 1).min(case.ops.len())..].to_vec();
@@ -214,6 +217,60 @@ fn drive(inst: &mut Ind, op: &Op) -> Vec<u64> {
         }
         Op::Mark => vec![],
     })
+}
+
+/// kind same-thread-long-twins: extra = [seed, len].  Two instances with the same parameters are fed the SAME long stream
+/// (regenerated from the seed) ONE AFTER THE OTHER on the same thread, a third one on a fresh thread: all outputs must
+/// agree bit for bit.  A counter shared between instances (thread-local / static "refresh every N updates" state) makes
+/// the second instance's refresh fall at another step than the first one's.
+fn check_long_twins(case: &Case) -> Option<Failure> {
+    let seed = case.extra[0] as u64;
+    let len = case.extra[1] as usize;
+    let mk_ = || Ind::create(&case.ind, &case.ps, &case.ms).unwrap().unwrap();
+    let bars = !mk_().has_next();
+    let run = move |mut inst: Ind| -> Vec<u64> {
+        // one 64-bit FNV hash per 4096 steps (2^20 outputs are not kept)
+        let mut rng = crate::rng::Rng::new(seed);
+        let mut hs = vec![];
+        let mut h: u64 = 0xcbf29ce484222325;
+        let mut x = 100.0f64;
+        for i in 0..len {
+            x = (x * (1.0 + (rng.unit() - 0.5) * 0.02)).max(1.0).min(1e4);
+            let out = if bars {
+                let b = ind::B { o: x, h: x * (1.0 + rng.unit() * 0.01), l: x * (1.0 - rng.unit() * 0.01), c: x, v: 100.0 * (0.5 + rng.unit()) };
+                inst.next_bar(&b)
+            } else {
+                inst.next(x)
+            };
+            for v in out {
+                let bts = if v.is_nan() { 0x7ff8_0000_0000_0000u64 } else { v.to_bits() };
+                h = (h ^ bts).wrapping_mul(0x100000001b3);
+            }
+            if i % 4096 == 4095 || i + 1 == len {
+                hs.push(h);
+            }
+        }
+        hs
+    };
+    let body = move || {
+        let a = run(mk_());
+        let b = run(mk_());
+        (a, b)
+    };
+    let (a, b) = match std::thread::scope(|s| s.spawn(body).join()) {
+        Ok(o) => o,
+        Err(_) => return fail(case, "panic", "panic in the long twin run".into()),
+    };
+    let v = match std::thread::scope(|s| s.spawn(move || run(mk_())).join()) {
+        Ok(o) => o,
+        Err(_) => return fail(case, "panic", "panic on the new thread".into()),
+    };
+    for (who, o) in [("the SECOND instance fed on the same thread", &b), ("an instance fed on a fresh thread", &v)] {
+        if let Some(i) = (0..a.len()).find(|i| o[*i] != a[*i]) {
+            return fail(case, "depends-on-other-instances", format!("{} diverges from the first one within steps {}..{} of the same {}-step stream (same parameters, bit-for-bit comparison)", who, i * 4096, (i + 1) * 4096, len));
+        }
+    }
+    None
 }
 
 /// kind drop-then-construct: ops = <stream of a short-lived instance> Mark <common stream>.
@@ -408,6 +465,17 @@ pub fn generate(r: &mut Runner) {
             }
         }
     }
+    // long twins on one thread (2^20 + 4200 steps each; the O(period)-per-step indicators get a small period)
+    for name in ind::NAMES {
+        let (np, nm) = ind::arity(name).unwrap();
+        let ps: Vec<usize> = (0..np).map(|j| [7usize, 13, 5][j % 3]).collect();
+        let ms: Vec<f64> = (0..nm).map(|_| 2.0).collect();
+        let mut c = Case::new("C05", "same-thread-long-twins", name, &ps, &ms);
+        let len = if r.tier == Tier::Quick { (1usize << 20) + 4200 } else { (1usize << 22) + 4200 };
+        c.extra = vec![(r.rng.u64() % (1 << 50)) as f64, len as f64];
+        r.steps += 3 * len as u64;
+        r.run(c, true);
+    }
     let tcases = if r.tier == Tier::Quick { 22 } else { 220 };
     for i in 0..tcases {
         let name = ind::NAMES[i % ind::NAMES.len()];
@@ -418,4 +486,4 @@ pub fn generate(r: &mut Runner) {
     }
 }
 
-pub const RULE: &str = "per case: an instance A is fed a history while an unrelated instance of the same type is fed perturbed data between every two calls; an isolated twin replays the same history (outputs must be bit-identical); A is cloned, the clone is fed a *different* stream, A is cloned again and A, the second clone and the isolated twin are fed the continuation alternately (all bit-identical). kind clone-in-warmup-big-window: periods 513..1100, clone after 2, 3, 5, period/2 and period-1 inputs, continuation longer than the period. kind clone-from: Clone::clone_from INTO AN ALREADY USED instance: two destinations built with the same (half of the cases) or different parameters and fed their own history (0..3n+3 inputs) are overwritten with dst.clone_from(&A), A being fresh / in warm-up (half of the cases) / past several wraps; period, multiplier and Display of the copy must equal A's, one copy is fed a different stream, then A, the other copy and A's isolated twin are fed a continuation longer than both periods (all bit-identical). kind drop-then-construct: an instance W is built and kept, two generations of instances with the same parameters are built, fed 1 / a few / period/2+1 / period+3 inputs and DROPPED, then Y and Z are built on the same thread and V on a new thread; W, Y, Z, V fed the same stream (longer than the period; 40 inputs for the O(period)-per-step indicators at big periods) must agree bit for bit; periods: two random ones <= 300 and 4096, 5000, 8192 (thorough: also 4097, 16384, 65536). kind threads16: 16 distinct instances run concurrently on 16 threads vs the same 16 runs sequentially. Non-trivial = non-empty history before the clone point (clone-from: the destination was used before). NaN compares equal to NaN.";
+pub const RULE: &str = "per case: an instance A is fed a history while an unrelated instance of the same type is fed perturbed data between every two calls; an isolated twin replays the same history (outputs must be bit-identical); A is cloned, the clone is fed a *different* stream, A is cloned again and A, the second clone and the isolated twin are fed the continuation alternately (all bit-identical). kind clone-in-warmup-big-window: periods 513..1100, clone after 2, 3, 5, period/2 and period-1 inputs, continuation longer than the period. kind clone-from: Clone::clone_from INTO AN ALREADY USED instance: two destinations built with the same (half of the cases) or different parameters and fed their own history (0..3n+3 inputs) are overwritten with dst.clone_from(&A), A being fresh / in warm-up (half of the cases) / past several wraps; period, multiplier and Display of the copy must equal A's, one copy is fed a different stream, then A, the other copy and A's isolated twin are fed a continuation longer than both periods (all bit-identical). kind drop-then-construct: an instance W is built and kept, two generations of instances with the same parameters are built, fed 1 / a few / period/2+1 / period+3 inputs and DROPPED, then Y and Z are built on the same thread and V on a new thread; W, Y, Z, V fed the same stream (longer than the period; 40 inputs for the O(period)-per-step indicators at big periods) must agree bit for bit; periods: two random ones <= 300 and 4096, 5000, 8192 (thorough: also 4097, 16384, 65536). kind same-thread-long-twins: two instances fed the same 2^20+4200-step stream (thorough 2^22+) one after the other on ONE thread and a third on a fresh thread, all outputs equal (hash per 4096 steps) — a counter shared between instances shows here. kind threads16: 16 distinct instances run concurrently on 16 threads vs the same 16 runs sequentially. Non-trivial = non-empty history before the clone point (clone-from: the destination was used before). NaN compares equal to NaN.";
